@@ -41,6 +41,9 @@ struct SinkScript {
     accept: Accept,
     /// hard failure once this many bytes were accepted
     fail_at: Option<usize>,
+    /// the failure at `fail_at` happens once; later calls succeed again (a transient error is within
+    /// the Write contract: no byte of the failed call was written)
+    transient: bool,
     /// Ok(0) once this many bytes were accepted
     zero_at: Option<usize>,
     /// return Interrupted before every j-th call (each call is interrupted at most once)
@@ -53,13 +56,14 @@ struct Sink {
     calls: usize,
     rng: Rng,
     interrupted_this_call: bool,
+    failed_once: bool,
     log: Vec<(usize, String)>,
 }
 
 impl Sink {
     fn new(script: SinkScript) -> Sink {
         let seed = if let Accept::Random(s) = script.accept { s } else { 0 };
-        Sink { script, out: Vec::new(), calls: 0, rng: Rng::new(seed), interrupted_this_call: false, log: Vec::new() }
+        Sink { script, out: Vec::new(), calls: 0, rng: Rng::new(seed), interrupted_this_call: false, failed_once: false, log: Vec::new() }
     }
     fn note(&mut self, asked: usize, what: String) {
         if self.log.len() < 64 {
@@ -83,7 +87,8 @@ impl Write for Sink {
             return Ok(0);
         }
         if let Some(k) = self.script.fail_at {
-            if self.out.len() >= k {
+            if self.out.len() >= k && !(self.script.transient && self.failed_once) {
+                self.failed_once = true;
                 self.note(buf.len(), "hard error".into());
                 return Err(io::Error::new(io::ErrorKind::Other, "scripted failure"));
             }
@@ -108,7 +113,9 @@ impl Write for Sink {
         };
         // never accept past a scripted failure point, so that the cut is exact
         for lim in [self.script.fail_at, self.script.zero_at].into_iter().flatten() {
-            n = n.min(lim - self.out.len());
+            if lim > self.out.len() {
+                n = n.min(lim - self.out.len());
+            }
         }
         let n = n.max(1).min(buf.len());
         self.out.extend_from_slice(&buf[..n]);
@@ -124,6 +131,7 @@ fn judge_write(what: &str, canonical: &[u8], script: &SinkScript, f: &dyn Fn(&mu
     let mut sink = Sink::new(script.clone());
     let r = guard(|| f(&mut sink));
     let class = match (&script.accept, script.fail_at, script.zero_at, script.interrupt_every) {
+        (_, Some(_), _, _) if script.transient => "transient-failure",
         (_, Some(_), _, _) => "hard-failure",
         (_, _, Some(_), _) => "zero-length-accept",
         (_, _, _, Some(_)) => "interrupted",
@@ -295,10 +303,12 @@ fn run(ctx: &Ctx, rep: &Report) {
         let payload_start = walk_package(&canonical).map(|p| p.payload_start).unwrap_or(0);
         let mut local: BTreeMap<String, u64> = BTreeMap::new();
         let mut scripts: Vec<SinkScript> = Vec::new();
-        let plain = SinkScript { accept: Accept::All, fail_at: None, zero_at: None, interrupt_every: None };
+        let plain = SinkScript { accept: Accept::All, fail_at: None, transient: false, zero_at: None, interrupt_every: None };
         // (1) hard failure at every offset (with full and with 1..7-byte acceptance)
         for k in 0..=canonical.len() {
             scripts.push(SinkScript { fail_at: Some(k), ..plain.clone() });
+            // the same failure, but only once
+            scripts.push(SinkScript { fail_at: Some(k), transient: true, ..plain.clone() });
             if k % 3 == 0 {
                 scripts.push(SinkScript { accept: Accept::Max(1 + k % 7), fail_at: Some(k), ..plain.clone() });
             }
